@@ -25,11 +25,27 @@ def run(ck):
             else:
                 out.write(open(ti).read())
             os.remove(ti)
+        # cold starts: fresh processes whose very first library calls are concurrent (lazily initialised state, first-use races)
+        reff = os.path.join(ck.tdir, "coldref.txt")
+        d = vlib.run_driver(drv, ["ref", ck.seed, reff], timeout=600)
+        if d["rc"] != 0:
+            raise vlib.InfraError("reference run failed rc=%s %s" % (d["rc"], d["err"][-800:]))
+        for i in range(12 if q else 200):
+            ti = os.path.join(ck.tdir, "cold%d.ndjson" % i)
+            d = vlib.run_driver(drv, ["cold", ck.seed * 1000 + i, reff, ti], timeout=600)
+            if d["rc"] != 0:
+                out.write(open(ti).read() if os.path.exists(ti) else "")
+                out.write(json.dumps({"e": "Crash", "how": "exit %s" % d["rc"], "stderr": d["err"][-800:]}) + "\n")
+            else:
+                out.write(open(ti).read())
+            if os.path.exists(ti):
+                os.remove(ti)
     ck.trace("threads", "Trace_Threads", "Trace.cfg", t, nchunks=16, boundary=lambda ln: '"Start"' in ln,
              what="%d executions x %d rounds on T = 2,3,4,8,16 threads of a 96-call mixed workload (boundaries and areas incl. pentagons, "
                   "indexing, disks, children+compaction, both polyfills in all modes with and without a hole, multipolygons without / with one hole / with nested rings and several outer loops, unsafe rings and disks, uncompaction, paths, local IJ, directed edges, vertexes/edges, faces, "
                   "hierarchy positions, enumerations); each return digest vs the sequential reference, hash of libh3.so's writable "
-                  "segments sampled every 8th call" % (nexec, rounds))
+                  "segments sampled every 8th call; plus %d cold-start processes (no library call before the hash baseline and the "
+                  "release of 8 threads that walk the workload in lockstep, then once more sequentially)" % (nexec, rounds, 12 if q else 200))
     # ThreadSanitizer: the sound detector for the no-shared-write clause
     dts = vlib.build_driver("drv_threads", "tsan")
     t2 = os.path.join(ck.tdir, "tsan.ndjson")
